@@ -157,6 +157,19 @@ def create (s : State) (k : Key) (size : Nat) (data : Bytes) : State × Out :=
     | (s', .noSpace, _) => (s', .err .noSpace)
     | (s', .panic, _) => (s', .err .panic)
 
+/-- `Create(key, size)` whose directory or data file cannot be made (`MkdirAll` / `OpenFile` fail —
+    disk store only): the admission test and the evictions it needs have happened, the reserved space
+    is released again (`size += n` without wrap-around, then `releaseSpace(n)`), no entry appears.
+    `.err .badArg` stands for the I/O error. -/
+def createFailing (s : State) (k : Key) (size : Nat) : State × Out :=
+  match s.blobs.get k with
+  | some _ => (s, .err .exist)
+  | none =>
+    match ensureFree s size with
+    | (s', .ok, _) => (s', .err .badArg)
+    | (s', .noSpace, _) => (s', .err .noSpace)
+    | (s', .panic, _) => (s', .err .panic)
+
 /-- `Open`: a queued blob moves to the back of the eviction queue -/
 def openB (s : State) (k : Key) (sc : Scope) : State × Out :=
   match lookup s k sc with
@@ -407,11 +420,26 @@ def hSize (s : State) (h : Handle) : HOut :=
 def setData (s : State) (k : Key) (b : Blob) (d : Bytes) : State :=
   { s with blobs := s.blobs.set k { b with data := d } }
 
+/-- largest Go `int` -/
+def maxInt : Nat := 9223372036854775807
+
+/-- `WriteAt(p, off)`: a negative offset and (since the `fix:` commit 7ee5f27) an offset whose end
+    `off + len(p)` does not fit an `int` are refused before the blob is looked at -/
 def hWriteAt (s : State) (h : Handle) (p : Bytes) (off : Int) : State × HOut :=
-  if off < 0 then (s, .invalid) else
+  if off < 0 ∨ off.toNat + p.length > maxInt then (s, .invalid) else
   match hBlob s h with
   | none => (s, .evicted)
   | some b => (setData s h.key b (writeAt b.data p off.toNat), .n p.length)
+
+/-- a Go `int` sum: wrap-around into the signed 64-bit range -/
+def toInt64 (n : Nat) : Int :=
+  if n % 18446744073709551616 < 9223372036854775808 then ((n % 18446744073709551616 : Nat) : Int)
+  else ((n % 18446744073709551616 : Nat) : Int) - 18446744073709551616
+
+/-- `WriteAt` before the repair: `end := int(off) + len(p)` wraps around, `resizeSliceIfNecessary`
+    does nothing (`len(buf) >= end`), and `buf[off:]` panics because `off > len(buf)` -/
+def legacyWriteAtPanics (data : Bytes) (off plen : Nat) : Bool :=
+  decide (toInt64 (off + plen) ≤ (data.length : Int)) && decide (data.length < off)
 
 def hWrite (s : State) (h : Handle) (p : Bytes) : State × Handle × HOut :=
   match hBlob s h with
